@@ -238,6 +238,45 @@ func runC14(c *Ctx, r *Report) {
 				}
 			}
 		}
+		if !okSorted {
+			// a helper on the same environment that collects the keys of its store and sorts them before returning
+			eachInstr(sg, func(in ssa.Instruction) {
+				hc, ok := in.(*ssa.Call)
+				if !ok || okSorted {
+					return
+				}
+				callee := hc.Common().StaticCallee()
+				if callee == nil || !isModuleSSA(callee) || callee.Blocks == nil {
+					return
+				}
+				hasRange, hasSort := false, false
+				eachInstr(callee, func(x ssa.Instruction) {
+					if _, ok := x.(*ssa.Range); ok {
+						hasRange = true
+					}
+					if call, ok := x.(*ssa.Call); ok {
+						if n := stdName(call); n == "slices.Sort" || n == "sort.Strings" || n == "slices.SortFunc" {
+							// the sorted slice is what the helper returns
+							for _, b := range callee.Blocks {
+								if ret, ok := b.Instrs[len(b.Instrs)-1].(*ssa.Return); ok && len(ret.Results) == 1 && instrDominates(call, ret) {
+									hasSort = true
+								}
+							}
+						}
+					}
+				})
+				if !hasRange || !hasSort {
+					return
+				}
+				all := true
+				for _, w := range writes {
+					if !instrDominates(hc, w) {
+						all = false
+					}
+				}
+				okSorted = all
+			})
+		}
 		r.Check(okSorted, "C14.R3", sname, "keys are sorted before any binding is written", c.Pos(sg.Pos()), "the bindings are written in Go map iteration order: saving the same state twice gives different files")
 		// the value written is the whole Inspect() result and the write is under !(len(val) > max)
 		inspectVals := map[ssa.Value]bool{}
